@@ -142,6 +142,21 @@ def gen(rng, tier, i):
             continue
         busy.setdefault(c, []).append((tt, tt))
         hits.append([c, hx(gen_sample()), R(tt)])
+    if rng.random() < 0.12:
+        # split-line pattern: a hit, then a hold, in one free column of one measure, on coprime subdivisions
+        j = rng.randrange(len(segs))
+        sg, bg, nmg = segs[j]
+        blg = Fr(60000) / Fr(bg)
+        c = rng.randrange(ncol)
+        d1, d2 = rng.choice([(7, 9), (9, 7), (5, 7), (9, 32), (64, 7), (7, 64), (96, 5), (3, 7)])
+        mline = sg + blg * 4 * rng.randrange(0, nmg)
+        t_hit = float(mline + blg * Fr(rng.randrange(1, d1), d1))
+        t_head = float(mline + blg * (1 + Fr(rng.randrange(1, d2), d2)))
+        t_tail = float(mline + blg * (2 + Fr(rng.randrange(0, 4), 4)))
+        if free(c, t_hit, t_tail):
+            busy.setdefault(c, []).append((t_hit, t_tail))
+            hits.append([c, hx(gen_sample()), R(t_hit)])
+            holds.append([c, hx(gen_sample()), R(t_head), R(t_tail - t_head)])
     if rng.random() < 0.1 and n_b > 1:
         order = list(range(n_b))
         rng.shuffle(order)
@@ -173,6 +188,12 @@ def corpus():
     c.append(dict(base, bpms=[[R(0), R(240)]], hits=[[1, hx(""), R(1000 * 1000.0)]], holds=[], _expect="D36"))
     # D37: a hit inside a hold of its lane
     c.append(dict(base, bpms=[[R(0), R(120)]], hits=[[4, hx(""), R(500)]], holds=[[4, hx(""), R(0), R(1000)]], _expect="D37"))
+    # a hit and a later long note in one column of one measure whose denominators have no common multiple below 100
+    # (7 and 9 -> 28 and 36): find_lcm leaves the group with two new_den values, the writer emits two lines for the
+    # same (measure, channel).  By the book the text still denotes the chart (pairing is by time); only a reader that
+    # pairs in file order (the library's own: D05) gets it wrong.
+    c.append(dict(base, bpms=[[R(0), R(120)]], hits=[[1, hx(""), R(500 / 7)]], holds=[[1, hx(""), R(500 + 500 / 9), R(700)]]))
+    c.append(dict(base, bpms=[[R(0), R(120)]], hits=[[1, hx(""), R(500 / 9)]], holds=[[1, hx(""), R(500 + 500 / 7), R(700)]]))   # head line before hit line in the file
     c.append(dict(base, bpms=[[R(0), R(120)]], hits=[], holds=[]))
     c.append(dict(base, bpms=[[R(0), R(120)]], hits=[[1, hx(""), R(500 / 3)], [1, hx(""), R(125)], [1, hx(""), R(100)], [1, hx(""), R(500 / 7)],
                                                      [1, hx(""), R(2500 / 96)]], holds=[]))
@@ -365,6 +386,9 @@ def run(case, drv):
         detail["spec"] = dict(impl=impl, why="the chart is inside the property's quantifier: the writer must write it")
     else:
         lines = impl[1]
+        keys = [l[:6] for l in lines if is_data(l)]
+        if len(keys) != len(set(keys)):
+            tags.append("split-lines")          # several lines for one (measure, channel)
         valid_flags = drv.call("c05.lines_valid", lines=[l.hex() for l in lines])["ok"]
         s_valid = all(valid_flags)
         den = drv.call("c04.denote", layout=layout, lines=[l.hex() for l in lines])["ok"]["den"]
